@@ -219,6 +219,11 @@ func Select(hasDefault bool, cases ...Case) int {
 		return ready[0]
 	}
 	var costs [maxCases]uint8
+	if !t.s.opt.FreeSwitch {
+		for i := 1; i < n; i++ {
+			costs[i] = 1
+		}
+	}
 	t.s.points++
 	k := t.s.ch.Choose(n, costs[:n], fnv(t.s.sig, 4242))
 	t.s.sig = fnv(t.s.sig, uint64(k)+1000)
